@@ -12,603 +12,561 @@ Definition show_fres (r : fres) : string :=
   end.
 Definition check (rs : list rune) : string := digest (show_fres (format_res rs)).
 Definition full (rs : list rune) : string := show_fres (format_res rs).
-Eval vm_compute in ("<<<M1909>>>" ++ check (runes_of_ascii "
-
-  options
-{ MetaDataX  =
-        // packet A { u8 x, }
-    // `tick` ""quote"" 'q'
-true
-}  root 
-  // `tick` ""quote"" 'q'
-	  /// triple
-
-  packet
-	u8x{
-repeat  uint16 u8x
-`" ++ [28040; 24687; 31867; 22411]%N ++ runes_of_ascii "`
-
-,
-@tag( 	 //
-
-	42 
-    // " ++ [128512]%N ++ runes_of_ascii " emoji
-	  /// triple
-  	)
-	char[  /// triple
-	7]
-	trueish 
-@lengthOf( 
-	// " ++ [27880; 37322]%N ++ runes_of_ascii "
-    Pad )  ,
-
-tag	@lengthOf( 
-A
-)
-
-`say ""hi""` , float
-	rootA , 	 // " ++ [27880; 37322]%N ++ runes_of_ascii "
-    	Foo ,
-	repeat uint32
-
-    calculatedFrom,
-    }root
-    packet
-u128{ 
-repeat
-
-    Packet 
-metadata
-    , repeat
-
-    zchar[
-0123456789
-]
-    len `u8 x,`
-, f32
-BodyLength 
-@lengthOf(Z9_
-)
-
-    `it's`
-    , match 
-crc 
-as  Packet {	0 
-
-//x
-  //x
-  	:	i64_,	[ 
-255]
-
-    :  rootA ,[ ""a	b"" ,	""\" ++ [233]%N ++ runes_of_ascii """
-    ,""\" ++ [233]%N ++ runes_of_ascii """
-,  // `tick` ""quote"" 'q'
-    0	/// triple
-    	,
-
-4294967296 ]  :	i8i8 
-,
-	} 
-,
-	@tag(1
-) @calculatedFrom( ""\" ++ [233]%N ++ runes_of_ascii """ )
-
-    string f32a
-    @calculatedFrom( 
-""abc"" 
-)  ,repeat  As {matchKey
-
-{crc
-
-    /// triple
-  @calculatedFrom(
-""// no comment""	//x
-
-	),
-    } 
-,
-lengthOf//
-
-	`crlf
-line`
-	    // packet A { u8 x, }
-, 
-
-    // a // b
-// a // b
-    T	//
-  	Pad  `a\`
-	,
-    repeat i8i8
-
-    charz  ,// a // b
-    	}
-,
-
-    } 
-packet
-
-    packetx
-
-    {
-
-@lengthOf(  Packet)
-repeat
-uint8x
-	    //
-
-  // " ++ [128512]%N ++ runes_of_ascii " emoji
-  `line1
-line2`
-    ,  @tag(	0123456789
-	)
-	string	BodyLength
-	@calculatedFrom(
-""" ++ [28040; 24687]%N ++ runes_of_ascii """)
-    ,	// trailing space 
-
+Eval vm_compute in ("<<<M1351>>>" ++ check (runes_of_ascii "options { StringPrefixLenType
+    // c2
+= // c3
+u64 // c4a
+  // c4b
+; // c5a
+  // c5b
+ArrayPrefixLenType // c6a
+  // c6b
+=
+    // c7
+u32 ; FixedStringPadFromLeft
+    // c10
+= // c11
+false // c12
+;
+    // c13
+} // c14a
+  // c14b
+packet // c15
+Party // c16
+{ // c17a
+  // c17b
 zchar[
-    42
-    ]
-MetaDataX 
-      //
-  ,  char  A
-    @lengthOf(
+    // c18
+7
+    // c19
+] // c20a
+  // c20b
+OrderId // c21a
+  // c21b
+,
+    // c22
+InTail6 // c23a
+  // c23b
+{ // c24
+repeat
+    // c25
+char[ // c26
+1
+    // c27
+] msgKind , char[ 3 // c32
+]
+    // c33
+Tail // c34a
+  // c34b
+, // c35a
+  // c35b
+char[ // c36a
+  // c36b
+3 // c37
+]
+    // c38
+Flags // c39
+, // c40
+i16 // c41a
+  // c41b
+tag7 , // c43a
+  // c43b
+} , // c45
+@rightPad ( // c47a
+  // c47b
+'0' )
+    // c49
+char[ // c50a
+  // c50b
+12
+    // c51
+]
+    // c52
+clOrdID // c53a
+  // c53b
+, // c54
+}
+    // c55
+packet
+    // c56
+Quote // c57
+{
+    // c58
+@leftPad // c59a
+  // c59b
+( '0' // c61
+) // c62
+char[ // c63
+11 // c64
+] // c65
+price // c66
+, // c67
+repeat // c68a
+  // c68b
+InCount7
+    // c69
+{
+    // c70
+i32 x // c72
+, // c73
+Party ,
+    // c75
+u8 // c76a
+  // c76b
+Ref // c77
+, u8 tag7 // c80
+, // c81a
+  // c81b
+} // c82
+, // c83a
+  // c83b
+char[] // c84a
+  // c84b
+seqNo // c85
+, Party
+    // c87
+, } // c89a
+  // c89b
+packet // c90a
+  // c90b
+Logon { // c92
+@rightPad // c93
+( // c94a
+  // c94b
+'\x00' ) // c96
+char[ 5 // c98a
+  // c98b
+] Note // c100
+, // c101a
+  // c101b
+i16 sym , // c104
+InPrice72 // c105
+{ char[ // c107a
+  // c107b
+9
+    // c108
+] // c109
+Ref // c110
+, zchar[ // c112
+1
+    // c113
+]
+    // c114
+venue // c115
+, // c116a
+  // c116b
+} , // c118a
+  // c118b
+char[] // c119a
+  // c119b
+clOrdID , } root // c123a
+  // c123b
+packet
+    // c124
+Reject
+    // c125
+{
+    // c126
+repeat // c127
+Logon , // c129
+@leftPad // c130a
+  // c130b
+( ' ' ) char[ // c134a
+  // c134b
+4 ] // c136a
+  // c136b
+seqNo // c137a
+  // c137b
+, // c138
+zchar[
+    // c139
+5 ] // c141a
+  // c141b
+Acct ,
+    // c143
+u32 // c144
+x
+    // c145
+, // c146a
+  // c146b
+u16 // c147
+f1 // c148
+@lengthOf( Body // c150a
+  // c150b
+)
+    // c151
+, // c152
+match // c153
+x // c154a
+  // c154b
+as
+    // c155
+Body // c156
+{ // c157
+[ // c158a
+  // c158b
+169
+    // c159
+, // c160a
+  // c160b
+74 // c161
+]
+    // c162
+: // c163a
+  // c163b
+Quote // c164a
+  // c164b
+, // c165a
+  // c165b
+45 // c166
+: Party
+    // c168
+, 7 // c170
+:
+    // c171
+Logon
+    // c172
+, } // c174
+,
+    // c175
+} ")).
+Eval vm_compute in ("<<<M213>>>" ++ check (runes_of_ascii "
+packet body
+{@tag(
+    3 ) i16 options1 ,  repeat string
+body ,
+@calculatedFrom( // trailing space 
+""a\""b""
+) x_y_z @calculatedFrom(
+""a\\"") `it's` , match o as BodyLength
+{ 00
+:
+pack,
+1 : u	,
+[255,255,""// no comment"" ]
+    : Packet	[ 65535 ] :  i64_ , }
+// @lengthOf(
+//
+,// a // b
+@calculatedFrom( // c
+""" ++ [233]%N ++ runes_of_ascii "t" ++ [233]%N ++ runes_of_ascii """ ) string// `tick` ""quote"" 'q'
+len `tab	here`,
+    @tag( 0123456789
+) repeat
+    //	t
+    matchKey A `a\`,
+    i8i8 Packet , stringy @calculatedFrom( ""x y"" ) ,f32a As
+`crlf
+line` ,u128{ repeat
+    int  {
+    repeat
+    zchar[255 ] a1`{ , }`
+,
+// a // b
+// a // b
+match calculatedFrom as body//	t
+{
+    0 // " ++ [27880; 37322]%N ++ runes_of_ascii "
+:body	42
+    // c
+    :tag // @lengthOf(
+, ""1""	:packetx , ""it's"":  roots,}, i32 u @calculatedFrom(// " ++ [128512]%N ++ runes_of_ascii " emoji
+""a\\"" ) ,
+}	,
+string_`crlf
+line`, _x  , repeat lengthOf crc ,	}, // " ++ [27880; 37322]%N ++ runes_of_ascii "
+}
+MetaData rootA {
+uint8	tag , string	Z9_ `u8 x,` ,
+    f64 float ,
+    Logon
+falsey`a\`
+, } packet len{  char[] u	`// not a comment`, char[] Header
+`// not a comment`	, string charz
+// a // b
 /// triple
-
-	tag	) `two words`
-	,
-@tag(10) @calculatedFrom(
-
-""" ++ [28040; 24687]%N ++ runes_of_ascii """ 
-    // `tick` ""quote"" 'q'
+`tab	here` ,
+    //
+    @leftPad
+    // packet A { u8 x, }
+    ( )@lengthOf(
+a1)
+// " ++ [128512]%N ++ runes_of_ascii " emoji
 //x
-)  @calculatedFrom(
-""x y"") char[ 
-7	]
-	repeatCount@calculatedFrom(
-""// no comment""
+len
+crc, @leftPad ( ' ' )Packet @calculatedFrom(""" ++ [128512]%N ++ runes_of_ascii """ ) , repeat uint8 a1
+, match
+    T as As { ""packet"": Logon , [	""" ++ [128512]%N ++ runes_of_ascii """
+    , 0 ]
+: i64_ , [ ""packet"" , 7
+    ]
+    : string_ ,
+} , repeat//
+zchar[
+007 ] zchar `{ , }` ,
+    }
+")).
+Eval vm_compute in ("<<<M1937>>>" ++ check (runes_of_ascii "// top
+options	// c0
 
-) , @calculatedFrom(	""it's""
-    ) char[
-65535
-	]
-packetx 
-`// not a comment`
+{	LittleEndian 
+      // c2
+      =	// c3a
+    // c3b
+	false // c4
 
-    , @leftPad 	 //	t
+	;	// c5a
+// c5b
+	StringPrefixLenType // c6
+= 	 // c7a
+	// c7b
+  u8 
+;
+    ArrayPrefixLenType
+    =
+// c11
+	u64 	 // c12
+
+; 
+        // c13
+  FixedStringPadFromLeft 
+        // c14
+  =false
+
+    ; 	 // c17a
+  // c17b
+    FixedStringPadChar
+
+=// c19a
+    // c19b
+	' ';
+// c21
+
+}  // c22
+  packet Reject 	 // c24a
+  // c24b
+{
+repeat  // c26
+	char[ // c27a
+// c27b
+	  4  // c28
+    ] 
+    // c29
+seqNo,// c31
+	string // c32a
+  // c32b
+	Px	// c33a
+  // c33b
+		, 	 // c34
+    }
+
+    root
+    // c36
+  packet// c37
+Trade 
+    // c38
+	{	// c39a
+
+// c39b
+	@rightPad // c40
 (
 
-' '
+    // c41
+	'0'
+	)// c43a
+// c43b
+      char[ // c44
+	  2// c45
+  ]
 
-)match 
-tag
-as  packetx
+    msgKind
+    ,// c48
+    	repeat 
+      // c49
+  f64  // c50a
+// c50b
+  price 
 
-    {  00
+    // c51
+	, 	 // c52
+	InAcct79  // c53
+  {
+    // c54
+	repeat 
+    // c55
+	Reject
+, 	 // c57a
+	  // c57b
+zchar[ // c58
+	  7 // c59a
 
-    : 
-int ,  }
-, @tag( 7 
-    //
-// " ++ [128512]%N ++ runes_of_ascii " emoji
-    )
-@lengthOf(
-// @lengthOf(
-  	float
-
-)
-    @tag(
-
-0123456789 )
-
-    Z9_
-	, 
-@tag(// c
-	00  ) 
-tag
-	{ uint16 
-MetaDataX ,  u tag
-
-`tab	here`	,float64
-	Packet
-	@calculatedFrom(""{,}""
-    )
-
+// c59b
+	]  // c60a
+	// c60b
+  OrderId// c61
 , 
-x_y_z
-
-u128
-
-,
-}  ,char[]
-
-msg_type
-
-    @lengthOf( calculatedFrom ) `line1
-line2`,
-
-    }
-MetaData // " ++ [27880; 37322]%N ++ runes_of_ascii "
-
-  float{ uint32 
-crc
-, charz msg_type
-,  u128
-crc	,string 
-stringy
-
-    `" ++ [233]%N ++ runes_of_ascii "` ,
-}
-")).
-Eval vm_compute in ("<<<M386>>>" ++ check (runes_of_ascii "options {
-    StringPrefixLenType = u16;
-    ArrayPrefixLenType = u16;
-}
-
-packet SampleBinary {
-    uint16 MsgType `" ++ [28040; 24687; 31867; 22411]%N ++ runes_of_ascii "`,
-    u16 BodyLenght @lengthOf(Body) `" ++ [28040; 24687; 20307; 38271; 24230]%N ++ runes_of_ascii "`,
-    match MsgType as Body {
-        1 : Logon,
-        2 : Logout,
-        3 : Heartbeat,
-        4 : RiskControlRequest,
-        5 : RiskControlResponse,
-    },
-    @calculatedFrom(""CRC32"")
-    u32 Ckecksum `" ++ [26657; 39564; 21644]%N ++ runes_of_ascii "`,
-}
-
-packet Logon {
-    @leftPad('0')
-    char[10] UserName `" ++ [29992; 25143; 21517]%N ++ runes_of_ascii "`,
-    string Password `" ++ [23494; 30721]%N ++ runes_of_ascii "`,
-    uint64 ClientId `" ++ [23458; 25143; 31471]%N ++ runes_of_ascii "ID`,
-    u16 HeartbeatInterval `" ++ [24515; 36339; 38388; 38548]%N ++ runes_of_ascii "`,
-}
-
-packet Logout {
-    @rightPad('0')
-    char[10] UserName `" ++ [29992; 25143; 21517]%N ++ runes_of_ascii "`,
-    uint64 ClientId `" ++ [23458; 25143; 31471]%N ++ runes_of_ascii "ID`,
-}
-
-packet Heartbeat {
-}
-
-packet RiskControlRequest {
-    string UniqueOrderId `" ++ [21807; 19968; 35746; 21333; 21495]%N ++ runes_of_ascii "`,
-    char[16] ClOrdID `" ++ [23458; 25143; 35746; 21333; 21495]%N ++ runes_of_ascii "`,
-    char[3] MarketID `" ++ [24066; 22330]%N ++ runes_of_ascii "id`,
-    char[12] SecurityID `" ++ [35777; 21048; 20195; 30721]%N ++ runes_of_ascii "`,
-    char Side `" ++ [20080; 21334; 26041; 21521]%N ++ runes_of_ascii "`,
-    char OrderType `" ++ [35746; 21333; 31867; 22411]%N ++ runes_of_ascii "`,
-    u64 Price `" ++ [20215; 26684]%N ++ runes_of_ascii "`,
-    u32 Qty `" ++ [25968; 37327]%N ++ runes_of_ascii "`,
-    repeat string ExtraInfo `" ++ [38468; 21152; 20449; 24687]%N ++ runes_of_ascii "`,
-    repeat SubOrder {
-        char[16] ClOrdID `" ++ [23376; 35746; 21333; 21495]%N ++ runes_of_ascii "`,
-        u64 Price `" ++ [23376; 35746; 21333; 20215; 26684]%N ++ runes_of_ascii "`,
-        u32 Qty `" ++ [23376; 35746; 21333; 25968; 37327]%N ++ runes_of_ascii "`,
-    },
-}
-
-packet RiskControlResponse {
-    string UniqueOrderId `" ++ [21807; 19968; 35746; 21333; 21495]%N ++ runes_of_ascii "`,
-    i32 Status `" ++ [29366; 24577]%N ++ runes_of_ascii "`,
-    string Msg `" ++ [32467; 26524; 20449; 24687]%N ++ runes_of_ascii "`,
-    repeat Detail,
-}
-
-packet Detail {
-    string RuleName `" ++ [35268; 21017; 21517; 31216]%N ++ runes_of_ascii "`,
-    u16 Code `" ++ [21407; 22240; 20195; 30721]%N ++ runes_of_ascii "`,
-}")).
-Eval vm_compute in ("<<<M331>>>" ++ check (runes_of_ascii "packet o
-// trailing space 
-//x
-{	repeat pack stringy `two words`	,
-    char[	1 ]
-leftPad , }
-/// triple
-// @lengthOf(
-MetaData msg_type{ zchar[  1] Pad`" ++ [28040; 24687; 31867; 22411]%N ++ runes_of_ascii "` , uint32 //x
-charz//
-`a\`
-,  A u8x `// not a comment` ,
-    // `tick` ""quote"" 'q'
-    } packet
-options1
-    {@calculatedFrom( """ ++ [233]%N ++ runes_of_ascii "t" ++ [233]%N ++ runes_of_ascii """
-) @rightPad( )
-Pad
-@lengthOf(// packet A { u8 x, }
-pack ) `` ,
-match
-    A
-as
-    a1 { 255  :
-msg_type  ,
-}
-,
-// " ++ [27880; 37322]%N ++ runes_of_ascii "
-//
-@lengthOf( tag )  @tag( 00 )@rightPad(' '
-) match Header	as f32a { """" : float , } // @lengthOf(
-, char[] T@calculatedFrom(
-    // packet A { u8 x, }
-    ""packet""	) , repeat asx /// triple
-msg_type`crlf
-line` , @calculatedFrom( ""\" ++ [233]%N ++ runes_of_ascii """ ) @tag( // trailing space 
-7
-)
-int64 o
-`line1
-line2`,
-    // trailing space 
-    } // " ++ [128512]%N ++ runes_of_ascii " emoji
-root
-packet// packet A { u8 x, }
-crc  { int8
-body
-@lengthOf( matchKey ) `two words` ,
-    //	t
-    @lengthOf( u8x )
-zchar[
-0123456789
-    ] i8i8,
-} MetaData  a1 { falsey _x
-`
-` ,
-char[] body`" ++ [28040; 24687; 31867; 22411]%N ++ runes_of_ascii "` ,
-// packet A { u8 x, }
-//
-zchar[ 42] trueish `
-` , float trueish,  metadata //x
-o `{ , }`, }")).
-Eval vm_compute in ("<<<M1343>>>" ++ check (runes_of_ascii "  options { 
-StringPrefixLenType
-= u64
-
-; ArrayPrefixLenType=	u32
-    ;  FixedStringPadFromLeft =
-    false
-;
-    } packet
-Party{ 
-zchar[
-7]OrderId
-, InTail6{
-
-    repeat
-char[
-1  ] 
-msgKind	,char[
-
-    3]
-Tail ,char[ 
-3 ]
-
-    Flags	,
-i16
-tag7	, 
-}
-
-,@rightPad
-
-    ('0'
-)
-
-    char[
-
-12 ]clOrdID
-	,}
-	packet	Quote
-    {@leftPad
-('0' 
-)
-    char[
-	11]
-price ,repeat  InCount7  { i32
-    x
-,Party,u8  Ref
-
-    , u8 tag7
-, 
-} ,
-	char[]	seqNo
-	,
-
-    Party, } packet  Logon
-{@rightPad(
-
-    '\x00'
-	)
-char[
-    5
-
-]
-	Note,
-
-i16
-    sym
-
-    ,InPrice72{char[	9 ]  Ref
-, zchar[ 1 ]
-    venue , } ,
-    char[]
-
-    clOrdID 
-,	}
-	root
-packet
-Reject {
-    repeat Logon
-
-,
-@leftPad	( ' '
-	)
-    char[
-4
-] seqNo,
-zchar[ 5]
-    Acct
-
+	    // c62
+  }	// c63a
+  // c63b
     ,
-	u32
+    Reject
 
-    x,
-    u16
-	f1	@lengthOf(
-
-Body )	, match
-
+    , } // c67a
+    // c67b")).
+Eval vm_compute in ("<<<M316>>>" ++ check (runes_of_ascii "// `tick` ""quote"" 'q'
+packet crc { @tag(0 ) //x
+chars , i8i8
+@lengthOf( packetx ), repeat
+f32a
+    {
+match packetx as a1{
+    ""x y""
+:
+//
+// `tick` ""quote"" 'q'
+Packet, } ,}
+, @leftPad(
+'\x00' )
+uint8 int ,
+match float as a1 {
+    // `tick` ""quote"" 'q'
+    [4294967296
+    ]
+:// " ++ [27880; 37322]%N ++ runes_of_ascii "
+Packet
+    , } //
+, repeat zchar[ 007 ] zchar`tab	here`
+    , repeat
+// " ++ [27880; 37322]%N ++ runes_of_ascii "
+// a // b
 x
-
-as
-Body
+    , }	packet
+string_
+    // c
+    { char[
+0123456789] a1
+, @calculatedFrom( ""a\\"" ) @tag( 42)
+@leftPad
+('\x00' ) options1
+    @calculatedFrom( """ ++ [28040; 24687]%N ++ runes_of_ascii """
+)`it's`	, repeat
+rootA// packet A { u8 x, }
 {
-[169,	74
-	] 
-:
-Quote
-, 
-45 :
-Party,7
-
-:
-
-    Logon 
+    //
+    match Logon as Packet { [10 ,	255 , 0,
+007 ,
+""CRC32""
+, ""abc"" ] : len , """ ++ [28040; 24687]%N ++ runes_of_ascii """:	a1	, } , match leftPad as Header { 007:  As
+, 255: repeatCount , /// triple
+"""" // packet A { u8 x, }
+: matchKey //
+, [ 255 ,
+    3,	""abc"" , """", ""\n"" , 1
+, """"// " ++ [27880; 37322]%N ++ runes_of_ascii "
+,
+42//x
+] : pack ,
+}
 , }
-
-    , }
-")).
-Eval vm_compute in ("<<<M1362>>>" ++ check (runes_of_ascii "options {
+// @lengthOf(
+// `tick` ""quote"" 'q'
+, int
+{int64 chars , }// @lengthOf(
+, } 	 ")).
+Eval vm_compute in ("<<<M237>>>" ++ check (runes_of_ascii "root
+    packet
+    asx { // `tick` ""quote"" 'q'
+f32a	,
+@calculatedFrom(
+""abc"") zchar[ 65535 ]	metadata `
+` , @calculatedFrom(// " ++ [128512]%N ++ runes_of_ascii " emoji
+""CRC32"" // `tick` ""quote"" 'q'
+) Header `doc`
+    // @lengthOf(
+    , match
+f32a as
+msg_type
+// @lengthOf(
+//x
+{ [ ""\n"" ] /// triple
+:
+charz// @lengthOf(
+0123456789 :
+pack
+    // `tick` ""quote"" 'q'
+    ,//x
+[ ""packet"" , """",
+    // @lengthOf(
+    ""`tick`"" ,
+    ""CRC32"" , ""\n"" ,
+// `tick` ""quote"" 'q'
+// trailing space 
+""it's""//	t
+,
+""it's"", //
+4294967296 ]
+:
+charz
+42
+    : leftPad , [
+255 ,	7 , ""packet"" , // trailing space 
+""{,}""
+    , ""\" ++ [233]%N ++ runes_of_ascii """ ,""1""
+    ,	""1""  ] : msg_type
+,
+    [ """ ++ [128512]%N ++ runes_of_ascii """
+    ]:  i64_ } ,  }packet body { } root packet i64_
+    { uint16  Header @calculatedFrom(
+""" ++ [233]%N ++ runes_of_ascii "t" ++ [233]%N ++ runes_of_ascii """ )
+    ``
+    ,float64 string_@calculatedFrom( // a // b
+""`tick`"") , repeat zchar[ // @lengthOf(
+1] packetx`it's` ,
+} //	t")).
+Eval vm_compute in ("<<<M1356>>>" ++ check (runes_of_ascii "options {
+    StringPrefixLenType = u16;
+    ArrayPrefixLenType = u32;
     FixedStringPadFromLeft = true;
     FixedStringPadChar = '0';
 }
-packet Leg {
-    repeat InSym93 {
-        zchar[3] Acct,
-        string Side2,
-        i32 Flags,
-        f32 Note,
-        i32 msgKind,
-    },
-    f64 Note,
-    uint16 Px,
+packet Cancel {
 }
-packet Quote {
-    zchar[2] OrderId,
+packet Party {
+}
+packet Logon {
 }
 packet Ack {
-    repeat string lastPx,
-    zchar[4] price,
-    uint32 OrderId,
-    Quote,
-    int8 Acct,
 }
-packet Fill {
-    repeat Leg,
-    @rightPad('0') char[11] Note,
-    f64 Px,
-    @rightPad('\x00') char[5] Flags,
-    zchar[9] x,
-    string msgKind,
+packet Logout {
+    repeat InSym87 {
+        InClordid94 {
+            string clOrdID,
+        },
+        string Px,
+        i16 Qty,
+        repeat InCount71 {
+            repeat Cancel,
+            uint16 Tail,
+            char[2] x,
+            repeat string Ref,
+        },
+        Cancel,
+    },
 }
 root packet Order {
-    Leg,
-    repeat Ack,
-    @rightPad('\x00') char[3] Side2,
-    repeat char[1] seqNo,
-    u16 clOrdID,
-    match clOrdID as Body {
-        198 : Leg,
-        23 : Quote,
-        13 : Ack,
-        159 : Fill,
+    repeat string tag7,
+    @leftPad(' ') char[3] Px,
+    u8 Qty,
+    match Qty as Body {
+        [28, 62] : Logon,
+        148 : Ack,
+        88 : Party,
+        184 : Cancel,
     },
-    u32 venue @calculatedFrom(""CR\
+    u16 Note @calculatedFrom(""CR\
 C32""),
 }
 ")).
-Eval vm_compute in ("<<<M1924>>>" ++ check (runes_of_ascii "
-// packet A { u8 x, }
-    MetaData
-
-_x{ //
-    char[]
-
-    len ,
-
-    }
-
-options 
-    // @lengthOf(
-  //
-	  {
-repeatCount	= """";  } // c
-
-root packet
-chars{char[
-    255
-] u8x
-	, repeat 
-
-    /// triple
-
-	// c
-	string repeatCount
-	`" ++ [28040; 24687; 31867; 22411]%N ++ runes_of_ascii "`
-	, repeat zchar[	10 ]
-	string_
-    , @tag(	// trailing space 
-      255 )
-    i8i8	{// packet A { u8 x, }
-options1
-	calculatedFrom	`u8 x,` ,i64 
-len,	roots// c
-
-	{  // @lengthOf(
-	  repeat
-
-// a // b
-	i64_ zchar 	 //
-    , }
-,}
-
-    , 
-match 
-chars as 
-Packet{""a\""b"" :Pad  , [
-    ""{,}""]
-
-    : 
-calculatedFrom  // a // b
-	  , """ ++ [233]%N ++ runes_of_ascii "t" ++ [233]%N ++ runes_of_ascii """ 
-      //x
-// `tick` ""quote"" 'q'
-    :
-uint8x
-,
-[ // packet A { u8 x, }
-	""`tick`""
-
-,
-
-    0,	42
-	]	:_x
-	[0123456789,""\" ++ [233]%N ++ runes_of_ascii """
-
-    ]
-
-    : i8i8
-,
-	}
-,
-
-} ")).
 Eval vm_compute in ("<<<M1315>>>" ++ check (runes_of_ascii "// top
 packet // c0
 MDSnapshotZZ // c1a
@@ -675,374 +633,356 @@ OrderACK
 } // c48a
   // c48b
 ")).
-Eval vm_compute in ("<<<M1409>>>" ++ check (runes_of_ascii "root packet asx {
-    @rightPad(' ')
-    @lengthOf(int)
-    @tag(0)
-    u64 uint8x @calculatedFrom(""packet""),
-    uint32 i64_,
-    // c
-    repeat options1 o,
-    match f32a as falsey {
-        42 : stringy,
-        10 : As,
-        """" : Packet,
-    },
-    @calculatedFrom(""it's"")
-    // " ++ [128512]%N ++ runes_of_ascii " emoji
-    f64 a1,
-    @lengthOf(tag)
-    match roots as MetaDataX {
-        """ ++ [128512]%N ++ runes_of_ascii """ : f32a,
-        ""\n"" : As,
-        [255] : A,
-    },
-    a1 @calculatedFrom(""abc"") ``,
-    @rightPad()
-    @rightPad('\x00')
-    @calculatedFrom(""CRC32"")
-    body As,
-}
-
-root packet packetx {
-    //x
-    //
-    repeat lengthOf Logon `" ++ [28040; 24687; 31867; 22411]%N ++ runes_of_ascii "`,//	t
-}")).
-Eval vm_compute in ("<<<M1339>>>" ++ check (runes_of_ascii "  options
-
-{ ArrayPrefixLenType
-
-    =  u64
-;FixedStringPadFromLeft
-	=true
-
-;
-    FixedStringPadChar  = '0'
-
-;
-
-}
-
-packet
-Quote{	} 
-packet  Ack
-
-    { repeat 
-InNote66
-    {
-    u8 
-pad0  ,
-    }
-    ,
-    }	packet 
-Reject 
-{
-}root
-    packet
-    Order{Quote
-
-    ,repeat
-	Reject 
-, string
-    venue
-
-    ,
-
-    string
-
-seqNo , 
-uint32
-
-    Ref , 
-u16 lastPx  ,
-u32 
-clOrdID 
-@lengthOf(  Body  ) 
-,
-match
-lastPx as	Body{
-    190 
-:Reject
-
-    ,
-186:Quote
-    ,
-	22
-:	Ack
-,
-}
-,
-    u16  Flags @calculatedFrom(
-
-""CRC32""
-	)
-
-    , }")).
-Eval vm_compute in ("<<<M210>>>" ++ check (runes_of_ascii "MetaData tag {
-//
-//
-char[// a // b
-3 ] // a // b
-msg_type
-    // c
-    , char[7 ] options1
-,
-    // trailing space 
-    float crc
-,calculatedFrom pack ,int64 u  `a\`,}
-packet leftPad{char[
-    1
-]
-    /// triple
-    zchar
-,
-    //
-    } packet crc { // c
-@lengthOf( packetx	) @lengthOf( asx)
-@lengthOf( packetx ) calculatedFrom {	f32 packetx	``
-// packet A { u8 x, }
-//x
-, },
-} options { Z9_
-= ""\" ++ [233]%N ++ runes_of_ascii """
-    // a // b
-    float = ' ' ; packetx = ""x y""
-    calculatedFrom  = int16
-    ;
-}")).
-Eval vm_compute in ("<<<M161>>>" ++ check (runes_of_ascii "packet rootA{ options1 _x , u64
-    Header , } packet lengthOf {
-    @rightPad ( ' '	)
-@lengthOf( u128 // trailing space 
-)	@calculatedFrom(	""a\""b"" )  A {string i64_	`it's`,
-//	t
-// trailing space 
-uint8
-body
-, match pack as u {
+Eval vm_compute in ("<<<M366>>>" ++ check (runes_of_ascii "packet
 // @lengthOf(
-// trailing space 
-00 : charz , 00: int ,3
-: falsey 255 :body
-    ,
-[0123456789 ] :x_y_z ,
+//	t
+f32a { char[] Header`" ++ [233]%N ++ runes_of_ascii "` ,  @tag( 00
+) zchar[ 255  ] int
+    , @lengthOf(	trueish)
+x @calculatedFrom( """ ++ [128512]%N ++ runes_of_ascii """
+    )`say ""hi""` , @leftPad
+    (	'\x00'
+) @lengthOf( //	t
+u128 )//	t
+repeat BodyLength ,
+falsey @lengthOf( uint8x ), //
+@lengthOf( rootA) repeat uint8 T  `a\` , repeat  string
+lengthOf
+`it's` , @leftPad(
+    '\x00' )
+zchar[ 42
+// packet A { u8 x, }
 // a // b
-//
-}
-,
-} ,
-} MetaData chars{ u128
-    zchar , char[ 42  ]
+] u`say ""hi""` ,// a // b
+repeat packetx
 // a // b
-// a // b
-metadata
-    , }
-")).
-Eval vm_compute in ("<<<M1858>>>" ++ check (runes_of_ascii "packet metadata {
-    //	t
-    float64 body @lengthOf(calculatedFrom),// a // b
-    @tag(42)
-    rootA,
-    x_y_z u8x `// not a comment`,
-    @lengthOf(Pad)
-    match packetx as leftPad {
-        //
-        65535 : tag,
-        """ ++ [128512]%N ++ runes_of_ascii """ : _x,
-    },
-    x_y_z metadata,
-    @tag(7)
-    int64 zchar @lengthOf(repeatCount) `" ++ [233]%N ++ runes_of_ascii "`,
-    @tag(0123456789)
-    repeat float chars,
-    f32 MetaDataX,
-}")).
-Eval vm_compute in ("<<<M1674>>>" ++ check (runes_of_ascii "
-// top
-
-MetaData // c0
-  	leftPad // c1
-  { // c2
-chars	// c3
-	MetaDataX  // c4
-	,  // c5
-  }	// c6
-      packet	// c7
-	repeatCount  // c8
-	{  // c9
-char[ 	 // c10
-	255 	 // c11
-	] // c12
-      uint8x  // c13
-    `" ++ [233]%N ++ runes_of_ascii "` // c14
-	, // c15
-
-} // c16
-    	MetaData// c17
-	  pack	// c18
-  { 	 // c19
-    As	// c20
-  Foo // c21
-
-,	// c22
-    }// c23")).
-Eval vm_compute in ("<<<M1919>>>" ++ check (runes_of_ascii "  packet
-    A
-{ u8 a	,  }
-
-packet
-
-    B
+// packet A { u8 x, }
 {
-    u16
-	b  ,
-
-}
-packet
-
-    C {
-u32
-    c
-
-    ,
-}root 
-packet
-
-M
-	{ u16 
-Kc
-
-    ,
-u16
-    Kb
-
-, u16 Ka,
-match 
-Kc
-
-as
-X 
-{ 9 : A  ,
-10 :B
-	,
-}
-	, match Kb  as Y 
-{ 
-2:
-	C
-
+Pad  f32a
+,// trailing space 
+i8i8 msg_type `say ""hi""` , i64_ repeatCount , char[]chars , } ,}MetaData _x
+{  x matchKey `" ++ [28040; 24687; 31867; 22411]%N ++ runes_of_ascii "`, }")).
+Eval vm_compute in ("<<<M1121>>>" ++ check (runes_of_ascii "// top
+root // c0
+packet // c1
+_x
+    // c2
+{ match
+    // c4
+Foo // c5
+as // c6a
+  // c6b
+Z9_ {
+    // c8
+""a	b"" // c9a
+  // c9b
+: // c10
+Pad // c11
 ,
-	1 
-:A
+    // c12
+} , // c14
+repeat // c15a
+  // c15b
+x `line1
+line2`
+    // c17
+, // c18
+@rightPad // c19a
+  // c19b
+(
+    // c20
+' ' // c21
+) // c22
+@calculatedFrom( ""a\\""
+    // c24
+) // c25a
+  // c25b
+metadata MetaDataX
+    // c27
+, @tag(
+    // c29
+0 ) // c31
+Logon int
+    // c33
+``
+    // c34
 ,
-} ,
-match
-    Ka	as
+    // c35
+} // c36
+options // c37
+{
+    // c38
+T // c39
+= // c40a
+  // c40b
+'\x00' } // c42a
+  // c42b
+")).
+Eval vm_compute in ("<<<M1346>>>" ++ check (runes_of_ascii "options {
+    ArrayPrefixLenType = u64;
+    FixedStringPadFromLeft = true;
+    FixedStringPadChar = '0';
+}
+packet Quote {
+}
+packet Ack {
+    repeat InNote66 {
+        u8 pad0,
+    },
+}
+packet Reject {
+}
+root packet Order {
+    Quote,
+    repeat Reject,
+    string venue,
+    string seqNo,
+    uint32 Ref,
+    u16 lastPx,
+    u32 clOrdID @lengthOf(Body),
+    match lastPx as Body {
+        190 : Reject,
+        186 : Quote,
+        22 : Ack,
+    },
+    u16 Flags @calculatedFrom(""CRC32""),
+}
+")).
+Eval vm_compute in ("<<<M1827>>>" ++ check (runes_of_ascii "// packet A { u8 x, }
+MetaData
 
-    Z{
+roots  { char[ 00
+
+    ] lengthOf
+`` ,As 
+stringy
+	,x  calculatedFrom	,	}
+packet i8i8 {
+	crc
+`crlf
+line`
+    ,
+
+@rightPad	// a // b
+	( )
+
+zchar[
+    42
+    ]falsey // trailing space 
+  , 
+  /// triple
+    @tag(
+    42
+)  u32
+
+    leftPad
+    , @tag( 42)a1@lengthOf( Z9_
+    )
+    ,
+match leftPad
+
+    as 
+crc{  [
+
+""a\""b""
+,
 1
-:	B
+,	255
 
-,  } , 
-A
+]
+	:
+trueish
+,
+    3
+
+    : 
+float
+
+    ,
+0:
+
+lengthOf 
+, } , }
+")).
+Eval vm_compute in ("<<<M1443>>>" ++ check (runes_of_ascii "  packet metadata{//	t
+		float64
+body 
+@lengthOf(
+
+    calculatedFrom)
+	,  // a // b
+@tag(
+42
+) rootA , x_y_z
+	u8x 
+`// not a comment` ,
+    @lengthOf( 
+Pad
+    ) match	// " ++ [27880; 37322]%N ++ runes_of_ascii "
+  packetx
+as	leftPad{ 
+
+    //
+  65535
+:
+tag
+	,
+""" ++ [128512]%N ++ runes_of_ascii """
+:	_x
+	},
+x_y_z
+
+metadata  ,
+
+@tag( 7
+    ) int64
+zchar
+
+    @lengthOf(
+    repeatCount
+	) `" ++ [233]%N ++ runes_of_ascii "`
+	,
+	@tag(0123456789
+
+) repeat
+	float 
+chars
 
 , 
-B ,
-
-    C , }
-
-")).
-Eval vm_compute in ("<<<M89>>>" ++ check (runes_of_ascii "packet Foo // " ++ [128512]%N ++ runes_of_ascii " emoji
-{@lengthOf( f32a )
-char[
-0123456789 //	t
-] float `u8 x,` ,}
-    packet // a // b
-i64_ {@lengthOf(stringy // packet A { u8 x, }
-)
-    char[] int @calculatedFrom(""{,}"" ) ,@tag(
-007 ) //
-int64
-stringy`" ++ [233]%N ++ runes_of_ascii "` ,  char[]A @calculatedFrom(
-""\" ++ [233]%N ++ runes_of_ascii """
-    )	`doc` ,// " ++ [27880; 37322]%N ++ runes_of_ascii "
-}
-")).
-Eval vm_compute in ("<<<M1253>>>" ++ check (runes_of_ascii "// top
-packet // c0
-Inner // c1
-{ // c2
-u8 // c3a
-  // c3b
-a // c4
-,
-    // c5
-} // c6
-root // c7
-packet // c8a
-  // c8b
-P // c9
-{ // c10a
-  // c10b
-repeat // c11a
-  // c11b
-Inner items // c13
-, // c14
-u8
-    // c15
-x , // c17a
-  // c17b
-} // c18
-")).
-Eval vm_compute in ("<<<M1569>>>" ++ check (runes_of_ascii "
-// top
-	  root  // c0
-	packet 
-P 	 // c2
-  {  // c3
-	  hdr
-// c4
-{ 
-    // c5
-		u8	// c6
-  a  // c7a
-// c7b
-    ,  
-      // c8
-}
-    , 	 // c10
-  u8// c11
-    	x // c12a
-		// c12b
-
-,
-
-} 
-        // c14")).
-Eval vm_compute in ("<<<M121>>>" ++ check (runes_of_ascii "packet u128 { @calculatedFrom(  ""a	b"" ) // packet A { u8 x, }
-@leftPad( ' '
-) //	t
+f32
+	MetaDataX,} ")).
+Eval vm_compute in ("<<<M118>>>" ++ check (runes_of_ascii "packet As{@leftPad ( )
+    char[ 0	]
+Logon, char[	0
+]
+Z9_@calculatedFrom(	""abc""
+    // c
+    ) ,  @tag( 4294967296 )
+    i64 matchKey @calculatedFrom(
+    ""// no comment""//
+)`two words` ,i16 A
+, }// " ++ [27880; 37322]%N ++ runes_of_ascii "
+packet T { zchar[
+3 ] tag// packet A { u8 x, }
 @lengthOf(
-Header // packet A { u8 x, }
-) char[10
-    ] crc@lengthOf(
-len ) , } MetaData i8i8 { }
+    chars) , } packet// " ++ [128512]%N ++ runes_of_ascii " emoji
+BodyLength  {calculatedFrom @lengthOf( body )
+`
+`	, } // a // b")).
+Eval vm_compute in ("<<<M12>>>" ++ check (runes_of_ascii "options {falsey =int64; u8x = uint32	uint8x =// " ++ [128512]%N ++ runes_of_ascii " emoji
+zchar[ 1
+]
+// @lengthOf(
+/// triple
+; leftPad =
+    ""a	b"";
+    calculatedFrom
+=
+    false ;	}
+MetaData Packet
+{  zchar[
+7]  As ,} root packet	pack {
+@leftPad ( )	@tag(// trailing space 
+7 ) zchar[ 3 ] u	@lengthOf(
+// @lengthOf(
+// trailing space 
+x ),
+}
 ")).
-Eval vm_compute in ("<<<M1416>>>" ++ check (runes_of_ascii "// top
-MetaData leftPad {
-    chars MetaDataX,
+Eval vm_compute in ("<<<M130>>>" ++ check (runes_of_ascii "packet zchar { @lengthOf( a1
+// " ++ [128512]%N ++ runes_of_ascii " emoji
+//	t
+) i64_ @lengthOf( Header )
+`" ++ [28040; 24687; 31867; 22411]%N ++ runes_of_ascii "`, charz`" ++ [233]%N ++ runes_of_ascii "` , char[007] i64_ , tag  { u16  matchKey // " ++ [27880; 37322]%N ++ runes_of_ascii "
+,match Pad as lengthOf { [""CRC32"" ,	""abc""
+] : Packet
+,	}
+, }
+    , } MetaData body {char[
+    10 ]u128
+    `doc`
+    ,
+/// triple
+//x
+} //x")).
+Eval vm_compute in ("<<<M1625>>>" ++ check (runes_of_ascii "root packet i8i8 {
+    @tag(4294967296)
+    // packet A { u8 x, }
+    Header calculatedFrom `
+        `,
+    @tag(4294967296)
+    @rightPad(' ')
+    @lengthOf(float)
+    options1 zchar `" ++ [233]%N ++ runes_of_ascii "`,
 }
 
-// c6
-packet repeatCount {
-    // c9
-    char[255] uint8x `" ++ [233]%N ++ runes_of_ascii "`,// c15
-}// c16
+root packet x {
+    repeat zchar[10] x `u8 x,`,
+}")).
+Eval vm_compute in ("<<<M21>>>" ++ check (runes_of_ascii "packet  Logon //	t
+{pack	_x
+    ,
+Z9_ i8i8  `" ++ [28040; 24687; 31867; 22411]%N ++ runes_of_ascii "`	, } options
+    { tag	= 4294967296 ; As = string
+    ; rootA = true ; }root packet f32a { //x
+@leftPad
+// " ++ [27880; 37322]%N ++ runes_of_ascii "
+// c
+(' ') repeat _x`" ++ [233]%N ++ runes_of_ascii "`	, @rightPad ( )i8i8 len,}
 
-MetaData pack {
-    As Foo,
-}// c23")).
+")).
+Eval vm_compute in ("<<<M265>>>" ++ check (runes_of_ascii "MetaData
+    zchar
+{
+uint8 _x
+// `tick` ""quote"" 'q'
+//
+`doc` ,
+    float64 metadata`doc` // " ++ [128512]%N ++ runes_of_ascii " emoji
+, zchar[ 42
+    ]
+// packet A { u8 x, }
+// c
+x_y_z , zchar[ 3 ]Logon `{ , }`
+, }
+
+")).
+Eval vm_compute in ("<<<M1415>>>" ++ check (runes_of_ascii "packet A
+
+    {
+match
+
+    k
+as
+
+n
+
+    {
+
+    [1
+	,
+	22
+,
+    ""c c""
+    , 4  , 
+5
+,
+
+    ""f""
+    ,
+7
+
+    ,  8
+
+,
+
+""i""
+,10  ]  :
+
+B
+, 2	:
+C } ,
+	}")).
 Eval vm_compute in ("<<<M195>>>" ++ check (runes_of_ascii "MetaData msg_type {} root packet
 A{ repeat i32 leftPad
 `it's`
@@ -1077,7 +1017,7 @@ a1
     { } options {packetx
     = '\x00'	; u128= ""a	b""  ; }
 ")).
-Eval vm_compute in ("<<<M498>>>" ++ check (runes_of_ascii "packet uint8x
+Eval vm_compute in ("<<<M502>>>" ++ check (runes_of_ascii "packet uint8x
 { match pack
     as msg_type	{
     0123456789 :	float
@@ -1086,254 +1026,252 @@ Eval vm_compute in ("<<<M498>>>" ++ check (runes_of_ascii "packet uint8x
 } packet //	t
 a1
     { } options {packetx
-    ; '\x00'	; u128= ""a	b""  ; }
+    = ;	'\x00' u128= ""a	b""  ; }
 ")).
-Eval vm_compute in ("<<<M272>>>" ++ check (runes_of_ascii "packet _x	{ } packet BodyLength { int64
-Packet
-@lengthOf( float ),
-options1 /// triple
-{rootA x	, u8
-Packet @calculatedFrom( """ ++ [28040; 24687]%N ++ runes_of_ascii """) `it's`  ,
-} , }")).
-Eval vm_compute in ("<<<M674>>>" ++ check (runes_of_ascii "// @lengthOf(
-packet i8i8 { { u128 o , }
+Eval vm_compute in ("<<<M433>>>" ++ check (runes_of_ascii "packet uint8x
+{ match pack
+    as msg_type	{
+    ""`tick`"" :	float
+}
+,
+} packet //	t
+a1
+    { } options {packetx
+    = '\x00'	; u128= ""a	b""  ; }
+")).
+Eval vm_compute in ("<<<M678>>>" ++ check (runes_of_ascii "// @lengthOf(
+packet i8i8 { u128 o , }
 options { MetaDataX = true;
     BodyLength =""packet"" x_y_z= 007
 crc //x
 = ""abc"" ;
-    msg_type =
+    < msg_type =
 i16 }")).
-Eval vm_compute in ("<<<M675>>>" ++ check (runes_of_ascii "// @lengthOf(
+Eval vm_compute in ("<<<M681>>>" ++ check (runes_of_ascii "// @lengthOf(
 packet i8i8 { u128 o , }
-options { MetaDataX true =;
+options { MetaDataX = true;
+    BodyLength =""packet"" x_y_z= 007
+crc //x
+= ""abc"" ;
+    msg_type i16
+= }")).
+Eval vm_compute in ("<<<M706>>>" ++ check (runes_of_ascii "// @lengthOf(
+packet i8i8 { u128 o , }
+options { MetaDataX = ;
     BodyLength =""packet"" x_y_z= 007
 crc //x
 = ""abc"" ;
     msg_type =
 i16 }")).
-Eval vm_compute in ("<<<M1500>>>" ++ check (runes_of_ascii "packet A {
+Eval vm_compute in ("<<<M37>>>" ++ check (runes_of_ascii "//
+root /// triple
+packet // trailing space 
+pack {
+@leftPad(
+    ' ' )
+    repeat trueish zchar ,	} root
+    packet // " ++ [27880; 37322]%N ++ runes_of_ascii "
+Header { }")).
+Eval vm_compute in ("<<<M1781>>>" ++ check (runes_of_ascii "packet A {
+    u16 len @lengthOf(body) `a
+    
+    b`,
+    u32 crc @calculatedFrom(""CRC32"") `a
+    
+    b`,
+    string body,
+}")).
+Eval vm_compute in ("<<<M1190>>>" ++ check (runes_of_ascii "MetaData leftPad { chars MetaDataX , } packet repeatCount { char[ 255 ] uint8x `" ++ [233]%N ++ runes_of_ascii "` , } MetaData pack { As Foo , }
+// c
+")).
+Eval vm_compute in ("<<<M1170>>>" ++ check (runes_of_ascii "MetaData leftPad { chars MetaDataX , } packet repeatCount { char[ 255 ] uint8x
+// c
+`" ++ [233]%N ++ runes_of_ascii "` , } MetaData pack { As Foo , }")).
+Eval vm_compute in ("<<<M907>>>" ++ check (runes_of_ascii "packet A {
+  match k as n {
+    [""a"", ""bb"", ""c c"", ""d"", ""e"", ""f"", ""g"", ""h"", ""i"", ""j"", ""k"", ""l""] : B
+    2 : C
+  },
+}")).
+Eval vm_compute in ("<<<M1442>>>" ++ check (runes_of_ascii "packet 
+A {Inner
+	{ 
+match
+
+k  as
+n  {	[ 1
+
+    , 22
+	,
+    007]	:
+
+    B
+
+    ,
+
+    },
+
+}  ,  }
+
+")).
+Eval vm_compute in ("<<<M944>>>" ++ check (runes_of_ascii "packet A {
     Inner {
-        u8 x `x
-                `,
+        u8 x `a
+
+b`,
         Deep {
-            u8 y `x
-                        `,
+            u8 y `a
+
+b`,
         },
     },
 }")).
-Eval vm_compute in ("<<<M1837>>>" ++ check (runes_of_ascii "packet u128 {
-    @calculatedFrom(""a	b"")
-    @leftPad(' ')
-    @lengthOf(Header)
-    char[10] crc @lengthOf(len),
-}
+Eval vm_compute in ("<<<M1304>>>" ++ check (runes_of_ascii "
+packet order_item
 
-MetaData i8i8 {
-}")).
-Eval vm_compute in ("<<<M1844>>>" ++ check (runes_of_ascii "packet B
-
-{u8
+{  u8
 a
-,	}root packet
 
-    P
+    , } root
+packet
 
-    {
-	u8 K ,u8  L@lengthOf( Body
-) ,match K as  Body {1
-	:
+    new_order{ order_item
+	,  u8
+x ,
 
-B,
 }
 
-    ,	}
-
 ")).
-Eval vm_compute in ("<<<M1150>>>" ++ check (runes_of_ascii "MetaData leftPad { chars
-// c
-MetaDataX , } packet repeatCount { char[ 255 ] uint8x `" ++ [233]%N ++ runes_of_ascii "` , } MetaData pack { As Foo , }")).
-Eval vm_compute in ("<<<M1182>>>" ++ check (runes_of_ascii "MetaData leftPad { chars MetaDataX , } packet repeatCount { char[ 255 ] uint8x `" ++ [233]%N ++ runes_of_ascii "` , } MetaData pack {
-// c
-As Foo , }")).
-Eval vm_compute in ("<<<M1463>>>" ++ check (runes_of_ascii "  root
-
+Eval vm_compute in ("<<<M610>>>" ++ check (runes_of_ascii "
 packet
-    Z9_ {
-
-repeat
-lengthOf
-pack
-,
-    repeat
-
-    A
-
+    asx {match u128 as lengthOf
 {
-
-    repeatCount 
-`doc` ,
-    } 
-,} ")).
-Eval vm_compute in ("<<<M955>>>" ++ check (runes_of_ascii "packet A {
-    u16 len @lengthOf(body) `
-x`,
-    u32 crc @calculatedFrom(""CRC32"") `
-x`,
-    string body,
-}")).
-Eval vm_compute in ("<<<M1675>>>" ++ check (runes_of_ascii "  packet 
-A{	match
-
-k
-	as n { [
-
-1
-,
-
-    ""bb"",007
-    ,
-	""d""
-]
-    :	B
-,
-2 :
-
-    C	}
-    , }
-")).
-Eval vm_compute in ("<<<M854>>>" ++ check (runes_of_ascii "packet A {
+//	t
+// `tick` ""quote"" 'q'
+255 : x repeat
+    } ,	}")).
+Eval vm_compute in ("<<<M598>>>" ++ check (runes_of_ascii "
+packet
+    asx {match u128 as lengthOf
+{
+//	t
+// `tick` ""quote"" 'q'
+255 : : x ,
+    } ,	}")).
+Eval vm_compute in ("<<<M569>>>" ++ check (runes_of_ascii "
+packet
+    asx {u128 match as lengthOf
+{
+//	t
+// `tick` ""quote"" 'q'
+255 : x ,
+    } ,	}")).
+Eval vm_compute in ("<<<M625>>>" ++ check (runes_of_ascii "
+packet
+    asx {match u128 as lengthOf
+{
+//	t
+// `tick` ""quote"" 'q'
+255 : x ,
+    } ,")).
+Eval vm_compute in ("<<<M861>>>" ++ check (runes_of_ascii "packet A {
   match k as n {
-    [""a"", ""bb"", ""c c"", ""d"", ""e"", ""f"", ""g"", ""h""] : B,
+    [1, 22, ""c c"", 4, 5, ""f"", 7, 8] : B
     2 : C
   },
 }")).
-Eval vm_compute in ("<<<M593>>>" ++ check (runes_of_ascii "
-packet
-    asx {match u128 as lengthOf
-{
-//	t
-// `tick` ""quote"" 'q'
-255 255 : x ,
-    } ,	}")).
-Eval vm_compute in ("<<<M639>>>" ++ check (runes_of_ascii "
-packet
-    asx {match u128 as lengthOf
-{
-//	t
-// `tick` ""quote"" 'q'
-255 : x ,
-    } ,	"" }")).
-Eval vm_compute in ("<<<M614>>>" ++ check (runes_of_ascii "
-packet
-    asx {match u128 as lengthOf
-{
-//	t
-// `tick` ""quote"" 'q'
-255 : x ,
-    , }	}")).
-Eval vm_compute in ("<<<M1307>>>" ++ check (runes_of_ascii "  packet
-orderItem 
-{
-	u8
-    a
-    , 
-}root
-packet
-newOrder{ orderItem	, 
-u8
-x
-	,
-}")).
-Eval vm_compute in ("<<<M1556>>>" ++ check (runes_of_ascii "packet A {
-    B b `tab
-    	x`,
-    B `tab
-    	x`,
-    repeat B bs `tab
-    	x`,
-}")).
-Eval vm_compute in ("<<<M1656>>>" ++ check (runes_of_ascii "  options  {
-    calculatedFrom=
-
-""abc""
-
-    ; float= i16} // trailing space 
-")).
-Eval vm_compute in ("<<<M1566>>>" ++ check (runes_of_ascii "packet A {
+Eval vm_compute in ("<<<M1926>>>" ++ check (runes_of_ascii "packet A {
     match k as n {
-        [22, ""a""] : B,
+        [1, 22, ""c c""] : B,
         2 : C,
     },
 }")).
-Eval vm_compute in ("<<<M805>>>" ++ check (runes_of_ascii "packet A {
-  match k as n {
-    [1, ""bb"", 007, ""d""] : B
-    2 : C
-  },
+Eval vm_compute in ("<<<M1282>>>" ++ check (runes_of_ascii "root 
+packet
+
+    P  { u16	a ,
+
+u32
+
+Sum	@calculatedFrom( ""CRC32""
+	) ,
+
+} ")).
+Eval vm_compute in ("<<<M1453>>>" ++ check (runes_of_ascii "packet A {
+    match k as n {
+        [""a""] : B,
+        2 : C,
+    },
 }")).
 Eval vm_compute in ("<<<M864>>>" ++ check (runes_of_ascii "packet A { Inner { match k as n { [1,22,007,4,5,66,7,8] : B, }, }, }")).
-Eval vm_compute in ("<<<M246>>>" ++ check (runes_of_ascii "MetaData x {x Packet
-,i32 lengthOf
-, // `tick` ""quote"" 'q'
-}
-")).
-Eval vm_compute in ("<<<M1864>>>" ++ check (runes_of_ascii "
-packet
-	body	// c
-	{
-i32
-
-f32a
-`{ , }`,
-	} options  { }
-")).
-Eval vm_compute in ("<<<M627>>>" ++ check (runes_of_ascii "
-packet
-    asx {match u128 as lengthOf
-{
-//	t
-// `t")).
-Eval vm_compute in ("<<<M1216>>>" ++ check (runes_of_ascii "packet body { i32 f32a `{ , }` , } options
-// c
-{ }")).
-Eval vm_compute in ("<<<M434>>>" ++ check (runes_of_ascii "packet uint8x
-{ match pack
-    as msg_type	{")).
-Eval vm_compute in ("<<<M1452>>>" ++ check (runes_of_ascii "  root  packet  P {
-char	c ,u8 x
-	, 
-}
-
-")).
-Eval vm_compute in ("<<<M50>>>" ++ check (runes_of_ascii "options {
-    Packet =  char[]  }
-")).
-Eval vm_compute in ("<<<M1768>>>" ++ check (runes_of_ascii "packet A {
-    u8 x `d `,// c 
-}")).
-Eval vm_compute in ("<<<M923>>>" ++ check (runes_of_ascii "packet A {
-    u8 x `a
+Eval vm_compute in ("<<<M918>>>" ++ check (runes_of_ascii "packet A {
+    B b `a
+b`,
+    B `a
+b`,
+    repeat B bs `a
 b`,
 }")).
-Eval vm_compute in ("<<<M1923>>>" ++ check (runes_of_ascii "
-
-  packet MetaDataX 
-{	}")).
-Eval vm_compute in ("<<<M295>>>" ++ check (runes_of_ascii "root  packet
-u128 { }")).
-Eval vm_compute in ("<<<M1130>>>" ++ check (runes_of_ascii "MetaData // c
-u { }")).
-Eval vm_compute in ("<<<M1022>>>" ++ check (runes_of_ascii "// c" ++ [8239]%N ++ runes_of_ascii "
-packet A {
+Eval vm_compute in ("<<<M1619>>>" ++ check (runes_of_ascii "MetaData M {
+    u8 x `
+        x`,
+    T t `
+        x`,
 }")).
-Eval vm_compute in ("<<<M999>>>" ++ check (runes_of_ascii "packet A {
-}// c" ++ [8192]%N)).
-Eval vm_compute in ("<<<M1071>>>" ++ check (runes_of_ascii "packet A {
+Eval vm_compute in ("<<<M1824>>>" ++ check (runes_of_ascii "
+
+  MetaData
+    M  { 
+u8	x	`a
+b`
+,
+    T 
+t	`a
+b`
+
+,}")).
+Eval vm_compute in ("<<<M1215>>>" ++ check (runes_of_ascii "packet body { i32 f32a `{ , }` , } options // c
+{ }")).
+Eval vm_compute in ("<<<M1393>>>" ++ check (runes_of_ascii "  root packet 
+P
+
+{char
+
+    c 
+,
+	u8 x
+,
+
 }
-
-
 ")).
-Eval vm_compute in ("<<<M84>>>" ++ check (runes_of_ascii " // " ++ [27880; 37322]%N)).
-Eval vm_compute in ("<<<M111>>>" ++ check (runes_of_ascii "
-
-")).
+Eval vm_compute in ("<<<M596>>>" ++ check (runes_of_ascii "
+packet
+    asx {match u128 as lengthOf
+{")).
+Eval vm_compute in ("<<<M1812>>>" ++ check (runes_of_ascii "packet A {
+    u8 x `a
+    
+    b`,
+}")).
+Eval vm_compute in ("<<<M179>>>" ++ check (runes_of_ascii "// `tick` ""quote"" 'q'
+options {}")).
+Eval vm_compute in ("<<<M1003>>>" ++ check (runes_of_ascii "packet A {
+ u8 x `d" ++ [8192]%N ++ runes_of_ascii "`, // c" ++ [8192]%N ++ runes_of_ascii "
+}")).
+Eval vm_compute in ("<<<M419>>>" ++ check (runes_of_ascii "packet uint8x
+{ match pack")).
+Eval vm_compute in ("<<<M576>>>" ++ check (runes_of_ascii "
+packet
+    asx {match")).
+Eval vm_compute in ("<<<M115>>>" ++ check (runes_of_ascii "MetaData roots{ } 	 ")).
+Eval vm_compute in ("<<<M981>>>" ++ check (runes_of_ascii "packet A {
+}
+// c" ++ [12288]%N)).
+Eval vm_compute in ("<<<M1074>>>" ++ check (runes_of_ascii "MetaData M {
+}// c")).
+Eval vm_compute in ("<<<M1229>>>" ++ check (runes_of_ascii "packet x
+// c
+{ }")).
+Eval vm_compute in ("<<<M404>>>" ++ check (runes_of_ascii "packet uint8x")).
+Eval vm_compute in ("<<<M995>>>" ++ check (runes_of_ascii "// c" ++ [5760]%N)).
+Eval vm_compute in ("<<<M727>>>" ++ check (runes_of_ascii "")).
